@@ -373,6 +373,16 @@ def d3(cx: Cx, ob: Ob) -> None:
                         if t == want1 or items in (want2, want3):
                             okp = True
                             continue
+                    from ..rules import first_split as _fs
+
+                    cuts = [(x, _fs(x, v, ("const", sep))) for x in subterms(t) if op(x) == "call"]
+                    cuts = [(x, r_) for x, r_ in cuts if r_[0] is not None]
+                    if not cuts:
+                        # the string is taken apart in some other way (a regular expression, a parser object): that
+                        # it cuts at the first separator is a question about that mechanism, not about a call shape
+                        ob.undecide(f"the string pre-validator does not cut its input with _split / str.partition / str.split (it returns `{show(t)[:50]}`): where it cuts is not decided")
+                        okp = True
+                        continue
                     ob.violate(m.qualname, m.where, "the string pre-validator does not parse through _split", detail="no-split")
                     continue
                 c = sc[0]
@@ -660,6 +670,10 @@ def d7(cx: Cx, ob: Ob) -> None:
             if op(elt) == "call" and op(tgt) == "tuple" and len(tgt[1]) == 3 and op(elt[1]) == "attr" and elt[1][2] == "from_curies" and len(elt[2]) == 3:
                 got = [tgt[1].index(a_) if a_ in tgt[1] else None for a_ in elt[2]]
                 _check_from_curies(cx, ob, T, order)
+            elif op(elt) == "call" and op(tgt) == "tuple" and len(tgt[1]) == 3 and not (op(a[3][0][1]) == "call" and a[3][0][1][1] in (("ext", "csv.reader"), ("builtin", "list"), ("builtin", "iter")) and any(op(x) == "call" and x[1] == ("ext", "csv.reader") for x in subterms(a[3][0][1]))):
+                # the triples are assembled from columns prepared beforehand, not from the rows of the reader
+                ob.undecide(f"read_triples builds its triples from `{show(a[3][0][1])[:50]}`, not from the rows of the csv reader: how the columns were parsed is not followed")
+                return
             elif op(elt) == "call" and op(tgt) == "tuple" and len(tgt[1]) == 3:
                 kw = dict(elt[3])
                 got = []
